@@ -39,6 +39,7 @@ def must_see(tier):
         m[impl + ':default-weights'] = 20
         m[impl + ':ghost-operands'] = 20
         m[impl + ':far-end-of-value-range'] = 100
+        m[impl + ':subclass-operand'] = 100
         m[impl + ':result-in-upper-half-of-unsigned-range'] = 20
     return m
 
@@ -135,8 +136,11 @@ def run_case(fam, impl, rng, rec, uni, vals, i, big_weights=None):
         n = rng.choice([0, 1, 2, rng.randint(0, len(uni))])
         keys = rng.sample(uni, min(n, len(uni)))
         kind = rng.choice(setops.CONTAINER_KINDS)
+        sub = rng.random() < .15
+        if sub:
+            rec.ev(impl + ':subclass-operand')
         c, v = setops.make_container(fam, kind, impl, keys, vals, rng,
-                                         pool=uni)
+                                         pool=uni, subclass=sub)
         return c, keys, (v if kind in ('Bucket', 'BTree') else None), kind
     a, ka, va, kinda = operand()
     b, kb, vb, kindb = operand()
